@@ -436,7 +436,7 @@ def extras(prop, tier, seed):
     if prop not in ("C17", "C15"):
         return []
     from pyvc.report import run_bounded
-    return [run_bounded("smtlib_solver", tier, seed)]
+    return [run_bounded("smtlib_solver", tier, seed), run_bounded("registration", tier, seed)]
 
 
 def variants(world, tier="quick", only=None):
@@ -450,6 +450,8 @@ def variants(world, tier="quick", only=None):
                 out.append(SolverVariant(world, "pop", k, n))
         out += [SolverVariant(world, "solve", k), SolverVariant(world, "reset_assertions", k),
                 SolverVariant(world, "get_value", k), SolverVariant(world, "get_model", k)]
+        # zero levels: legal, and a no-op on both sides
+        out += [SolverVariant(world, "push", k, 0), SolverVariant(world, "pop", k, 0)]
         for op in ("is_sat", "is_valid", "is_unsat"):
             out.append(SolverVariant(world, op, k, ntypes=1))
         if k >= 2:
@@ -459,6 +461,206 @@ def variants(world, tier="quick", only=None):
                     SolverVariant(world, "is_sat", k, ntypes=0, pending=True)]
             if k >= 3:
                 out.append(SolverVariant(world, "pop", k, 1, pending=True))
+            # the values of a one-shot query are asked while its level is still there (the solver is in sat mode)
+            out += [SolverVariant(world, "get_value", k, pending=True), SolverVariant(world, "get_model", k, pending=True)]
+    if only:
+        out = [v for v in out if any(o in v.name for o in only)]
+    return out
+
+
+# ---------------------------------------------------------------------------
+# registration of a text-interface solver with the factory
+# ---------------------------------------------------------------------------
+class GenericRegistrationVariant(Variant):
+    """Factory.add_generic_solver(name, args, logics) on a factory that already knows one solver.
+    New name: the name is recorded with exactly these arguments and logics, the class registered under it declares these
+    logics, the name is appended to the preference list; the other solver's records are untouched.
+    Name taken: SolverRedefinitionError, and every record - the rejected call's arguments included - is as before (C15)."""
+    prop_ids = ("C17", "C15")
+    qualname = "pysmt.factory.Factory.add_generic_solver"
+    replay_kind = "factory-registration"
+
+    def __init__(self, world, taken, cores):
+        self.world, self.taken, self.cores = world, taken, cores
+        self.name = "register:add_generic_solver[%s%s]" % ("name-taken" if taken else "new-name", "/unsat-cores" if cores else "")
+
+    def setup(self, ex):
+        from pyvc.world import Contract
+        W = self.world
+        core.make_env(ex, W)
+        Str = z3.StringSort()
+        self.old, self.new = z3.Const("registered_name", Str), z3.Const("name", Str)
+        ex.assume((self.new == self.old) if self.taken else (self.new != self.old))
+        self.oldcls = Obj("builtins.type", {"LOGICS": ["old logics"]}, tag="RegisteredClass")
+        self.oldinfo = (["old", "args"], ["old logics"])
+        self.all = DictVal([[self.old, self.oldcls]])
+        self.gen = DictVal([[self.old, self.oldinfo]])
+        self.prefs = DictVal([["Solver", [self.old]], ["Solver supporting Unsat Cores", []]])
+        self.args, self.logics = ["solver", "-in"], ["L1", "L2"]
+        v = self
+
+        def partial(exx, a, kw):
+            return Obj("functools.partial", {"func": a[0], "args": list(a[1:]), "keywords": dict(kw)}, tag="partial")
+        W.custom_globals[("functools", "partial")] = Builtin("functools.partial", partial)
+        self.fac = Obj("pysmt.factory.Factory", {"_all_solvers": self.all, "_generic_solvers": self.gen, "preferences": self.prefs},
+                       tag="factory")
+        fi = W.repo.func(self.qualname)
+        return W.wrap_func(fi, fi.module, bound=self.fac), [self.new, self.args, self.logics], ({"unsat_core_support": True} if self.cores else {})
+
+    def _entry(self, d, key):
+        hits = [v_ for k_, v_ in d.items if (k_ is key) or (is_z3(k_) and k_.eq(key))]
+        return hits
+
+    def check(self, ex, outcome):
+        kind, r = outcome
+        old_all, old_gen = self._entry(self.all, self.old), self._entry(self.gen, self.old)
+        prefs = self._entry(self.prefs, "Solver")
+        cores = self._entry(self.prefs, "Solver supporting Unsat Cores")
+        if kind == "raise":
+            ok = self.taken and isinstance(r, ExcVal) and r.cls == "SolverRedefinitionError" if hasattr(r, "cls") else self.taken
+            return [("error-only-when-the-name-is-taken", z3.BoolVal(bool(ok))),
+                    ("failure:registered-classes-as-before", z3.BoolVal(len(self.all.items) == 1 and old_all == [self.oldcls])),
+                    ("failure:recorded-arguments-and-logics-as-before", z3.BoolVal(len(self.gen.items) == 1 and len(old_gen) == 1 and old_gen[0] is self.oldinfo)),
+                    ("failure:preference-lists-as-before", z3.BoolVal(len(prefs) == 1 and len(prefs[0]) == 1 and len(cores) == 1 and len(cores[0]) == 0))]
+        if self.taken:
+            return [("taken-name-rejected", z3.BoolVal(False))]
+        new_all, new_gen = self._entry(self.all, self.new), self._entry(self.gen, self.new)
+        goals = [("other-solver-untouched", z3.BoolVal(old_all == [self.oldcls] and len(old_gen) == 1 and old_gen[0] is self.oldinfo))]
+        okg = len(new_gen) == 1 and isinstance(new_gen[0], tuple) and len(new_gen[0]) == 2 and new_gen[0][0] is self.args and new_gen[0][1] is self.logics
+        goals.append(("arguments-and-logics-recorded-under-the-name", z3.BoolVal(bool(okg))))
+        okc = len(new_all) == 1 and isinstance(new_all[0], Obj) and new_all[0].fields.get("LOGICS") is self.logics
+        goals.append(("registered-class-declares-the-given-logics", z3.BoolVal(bool(okc))))
+        if okc:
+            c = new_all[0]
+            goals.append(("registered-class-starts-the-given-command-line",
+                          z3.BoolVal(c.fields.get("args") == [self.args] and (c.fields.get("keywords") or {}).get("LOGICS") is self.logics)))
+            goals.append(("unsat-core-support-as-stated", z3.BoolVal(c.fields.get("UNSAT_CORE_SUPPORT") is bool(self.cores))))
+        okp = len(prefs) == 1 and len(prefs[0]) == 2 and prefs[0][0] is self.old and prefs[0][1] is self.new
+        goals.append(("name-appended-to-the-preference-list", z3.BoolVal(bool(okp))))
+        goals.append(("unsat-core-preference-list", z3.BoolVal(len(cores) == 1 and (cores[0] == [self.new] if self.cores else cores[0] == []))))
+        return goals
+
+
+_base_variants17 = variants
+
+
+def variants(world, tier="quick", only=None):
+    out = _base_variants17(world, tier, None)
+    for taken in (False, True):
+        for cores in (False, True):
+            out.append(GenericRegistrationVariant(world, taken, cores))
+    if only:
+        out = [v for v in out if any(o in v.name for o in only)]
+    return out
+
+
+# ---------------------------------------------------------------------------
+# the factory's one-call shortcuts
+# ---------------------------------------------------------------------------
+class ShortcutVariant(Variant):
+    """Factory.is_sat / is_valid / is_unsat / get_model (formula, solver_name, logic): a solver is made for the given name and
+    some logic and asked about this formula; what comes back is the
+    corresponding truth under the solver's (consistent) answers - satisfiable, not satisfiable, valid -, however it is
+    obtained; the solver is released once - also when the question fails (C15).  A body that asks about another formula
+    (e.g. the negation) is out of this contract's reach, not a violation."""
+    prop_ids = ("C17", "C15")
+
+    def __init__(self, world, op, logic_given):
+        self.world, self.op, self.logic_given = world, op, logic_given
+        self.qualname = "pysmt.factory.Factory." + op
+        self.name = "shortcut:%s[logic-%s]" % (op, logic_given)
+
+    def setup(self, ex):
+        from pyvc.world import Contract
+        W = self.world
+        env = core.make_env(ex, W)
+        self.f = z3.Const("formula", Node)
+        W.touch(ex, self.f)
+        self.detected = Obj("builtins.object", {"name": "detected"}, tag="detected-logic")
+        self.given = Obj("builtins.object", {"name": "given"}, tag="given-logic")
+        self.auto = Obj("builtins.object", {"name": "auto"}, tag="auto-logic")
+        W.custom_globals[("pysmt.factory", "AUTO_LOGIC")] = self.auto
+        v = self
+        self.log, self.made = [], []
+
+        def get_logic(exx, a, kw):
+            v.log.append(("get_logic", a[0]))
+            return v.detected
+        W.custom_globals[("pysmt.factory", "get_logic")] = Builtin("get_logic", get_logic)
+        self.answer = ex.fresh("formula_is_satisfiable", B)
+        self.valid = ex.fresh("formula_is_valid", B)
+        ex.assume(z3.Implies(self.valid, self.answer))
+        self.model = Obj("pysmt.solvers.eager.EagerModel", {}, tag="the-model")
+
+        def mk_solver(exx, a, kw):
+            v.made.append(dict(kw))
+            s = Obj("pysmt.solvers.solver.Solver", {"_destroyed": False}, tag="one-shot-solver")
+
+            def question(name):
+                def q(exx2, a2, kw2):
+                    rest = [x for x in a2 if x is not s]
+                    v.log.append((name, rest[0] if rest else None))
+                    if exx2.decide(exx2.fresh("question_fails", B)):
+                        exx2.ghost["question_failed"] = True
+                        raise PyRaise(ExcVal("SolverReturnedUnknownResultError", ("unknown",)))
+                    if name in ("add_assertion",):
+                        return None
+                    if name == "get_model":
+                        return v.model
+                    if name != "solve" and not (rest and is_z3(rest[0]) and rest[0].eq(v.f)):
+                        raise Unsupported("a shortcut that asks about another formula than the one given")
+                    # the solver's answers are consistent: unsat is not-sat, a valid formula is satisfiable
+                    return {"is_sat": v.answer, "solve": v.answer, "is_unsat": z3.Not(v.answer), "is_valid": v.valid}[name]
+                return Builtin(name, q, bound=s)
+            for nm in ("is_sat", "is_valid", "is_unsat", "add_assertion", "solve", "get_model"):
+                s.fields[nm] = question(nm)
+            s.fields["exit"] = Builtin("exit", lambda exx2, a2, kw2: v.log.append(("exit", None)), bound=s)
+            return s
+        self.fac = Obj("pysmt.factory.Factory", {"environment": env}, tag="factory")
+        self.fac.fields["Solver"] = Builtin("Solver", mk_solver, bound=self.fac)
+        fi = W.repo.func(self.qualname)
+        kw = {"solver_name": "the-name"}
+        if self.logic_given == "given":
+            kw["logic"] = self.given
+        elif self.logic_given == "auto":
+            kw["logic"] = self.auto
+        return W.wrap_func(fi, fi.module, bound=self.fac), [self.f], kw
+
+    def check(self, ex, outcome):
+        kind, r = outcome
+        goals = []
+        names = [n for n, _ in self.log]
+        # (which name and logic the solver is made for is the selection's business: C13)
+        goals.append(("a-solver-is-made", z3.BoolVal(len(self.made) >= 1)))
+        goals.append(("failure:every-solver-made-is-released-once", z3.BoolVal(names.count("exit") == len(self.made))))
+        if kind == "raise":
+            goals.append(("error-only-when-the-solver-fails", z3.BoolVal(bool(ex.ghost.get("question_failed")))))
+            return goals
+        asked = [(n, x) for n, x in self.log if n in ("is_sat", "is_valid", "is_unsat", "add_assertion", "solve", "get_model")]
+        if self.op == "get_model":
+            seq = [n for n, _ in asked]
+            sat = ex.decide(self.answer) if is_z3(self.answer) else bool(self.answer)
+            goals.append(("asserts-the-formula-then-solves", z3.BoolVal(seq[:2] == ["add_assertion", "solve"] and is_z3(asked[0][1]) and asked[0][1].eq(self.f))))
+            if sat:
+                goals.append(("model-of-the-solver-returned-when-sat", z3.BoolVal(seq == ["add_assertion", "solve", "get_model"] and r is self.model)))
+            else:
+                goals.append(("no-model-when-not-sat", z3.BoolVal(seq == ["add_assertion", "solve"] and r is None)))
+            return goals
+        goals.append(("the-solver-is-asked", z3.BoolVal(len(asked) >= 1)))
+        t = ex.truth(r) if not isinstance(r, bool) else z3.BoolVal(r)
+        want = {"is_sat": self.answer, "is_unsat": z3.Not(self.answer), "is_valid": self.valid}[self.op]
+        goals.append(("shortcut-is-the-corresponding-truth", (t == want) if is_z3(t) else z3.BoolVal(False)))
+        return goals
+
+
+_base_variants17b = variants
+
+
+def variants(world, tier="quick", only=None):
+    out = _base_variants17b(world, tier, None)
+    for op in ("is_sat", "is_valid", "is_unsat", "get_model"):
+        for lg in ("given", "none", "auto"):
+            out.append(ShortcutVariant(world, op, lg))
     if only:
         out = [v for v in out if any(o in v.name for o in only)]
     return out
